@@ -52,7 +52,7 @@ Definition c11_run (input : list Z) : list Z :=
                 else if (entry =? 1) || (entry =? 2) then enc_json p u
                 else if entry =? 3 then enc_add_recipient (bz fb) p u
                 else if (entry =? 4) || (entry =? 6) then dec_signature p u
-                else if entry =? 8 then dec_general_second (bz fb) p u
+                else if (entry =? 8) || (entry =? 10) then dec_general_second (bz fb) p u    (* 10: an undecodable signature in between is skipped by the agreement scan *)
                 else if entry =? 5 then match p with Some _ => dec_signature p None | None => false end
                 else dec_signature p u && verify_headers_ok p u in
               [zb res]
